@@ -193,7 +193,7 @@ func TestC15Lab(t *testing.T) {
 	}
 	Explore("TestC15Lab", rep, runs)
 	if n, _ := rep.Extra["udp_announces_seen"].(int64); n == 0 {
-		core.HarnessError("vacuous: no UDP announce reached the scripted tracker")
+		rep.Vacuous("vacuous: no UDP announce reached the scripted tracker")
 	}
 	rep.Finish()
 }
